@@ -33,10 +33,10 @@ def streams_grid(nmax):
 class C07(Prop):
     ID = "C07"
     MODULE = "AwProofs.Props.C07"
-    THEOREMS = ["AwProofs.C07.earlier_events_untouched_Memory", "AwProofs.C07.earlier_events_untouched_Peewee", "AwProofs.C07.earlier_events_untouched_Sqlite", "AwProofs.C07.earlier_events_untouched_loop_Memory", "AwProofs.C07.earlier_events_untouched_loop_Peewee", "AwProofs.C07.earlier_events_untouched_loop_Sqlite", "AwProofs.C07.earlier_events_untouched_spec", "AwProofs.C07.loop_eq_reduce_Memory", "AwProofs.C07.loop_eq_reduce_Peewee", "AwProofs.C07.loop_eq_reduce_Sqlite", "AwProofs.C07.loop_eq_reduce_Sqlite_of_ends", "AwProofs.C07.loop_eq_reduce_spec", "AwProofs.C07.sqlite_before_epoch_false"]
+    THEOREMS = ["AwProofs.C07.earlier_events_untouched_Memory", "AwProofs.C07.earlier_events_untouched_Peewee", "AwProofs.C07.earlier_events_untouched_Sqlite", "AwProofs.C07.earlier_events_untouched_loop_Memory", "AwProofs.C07.earlier_events_untouched_loop_Peewee", "AwProofs.C07.earlier_events_untouched_loop_Sqlite", "AwProofs.C07.earlier_events_untouched_spec", "AwProofs.C07.loop_eq_reduce_Memory", "AwProofs.C07.loop_eq_reduce_Peewee", "AwProofs.C07.loop_eq_reduce_Sqlite", "AwProofs.C07.loop_eq_reduce_spec", "AwProofs.C07.sqlite_before_epoch_now_read"]
     WORKERS = 10
-    LEVEL_TEXT = 'Lean 4 theorems: loop_eq_reduce_B for B in {sqlite, memory, peewee} (the ingestion loop over the backend model leaves exactly heartbeat_reduce of the stream, other buckets untouched), earlier_events_untouched_B, loop_eq_reduce_spec on the list model; sqlite_before_epoch_false (counterexample for heartbeats ending before 1970); loop run on the real backends beside a populated bucket, also into a re-created bucket'
-    LEVEL_NOTE = 'trusts: Lean kernel + 3 standard axioms; backend models as validated by C02/C04; hypotheses: strictly increasing timestamps (in the property); sqlite: heartbeats end at or after 1970'
+    LEVEL_TEXT = 'Lean 4 theorems: loop_eq_reduce_B for B in {sqlite, memory, peewee} (the ingestion loop over the backend model leaves exactly heartbeat_reduce of the stream, other buckets untouched), earlier_events_untouched_B, loop_eq_reduce_spec on the list model; sqlite_before_epoch_now_read (history of repair F22: the former counterexample, heartbeats ending before 1970, is now merged like any other stream); loop run on the real backends beside a populated bucket, also into a re-created bucket'
+    LEVEL_NOTE = 'trusts: Lean kernel + 3 standard axioms; backend models as validated by C02/C04; hypotheses: strictly increasing timestamps (in the property); none about 1970 any more (sqlite repaired, F22)'
     TECHNIQUE = "Lean 4 loop-invariant proof (store loop = heartbeat_reduce) + differential correspondence on heartbeat streams"
     RULE = (
         "every heartbeat stream of <=n events with strictly increasing starts on a 6-point 1 s grid, durations 0..3 s, "
